@@ -55,9 +55,26 @@ func (s zzSel) matches(label string) bool {
 	return false
 }
 
+func zzCreatedMax(n int, small bool) int {
+	if small {
+		return 1
+	}
+	return n - 1
+}
+
 func (s zzSel) usable() bool { return s.kind != "bogus" }
 
-func zzPickSel(label string) zzSel {
+func zzPickSel(label string, small bool) zzSel {
+	if small {
+		// reduced alphabet of the three-settings quick harness
+		switch nondet.String(label, "labels-a", "notin-a", "bogus") {
+		case "labels-a":
+			return zzSel{"labels-a"}
+		case "notin-a":
+			return zzSel{"notin-a"}
+		}
+		return zzSel{"bogus"}
+	}
 	switch nondet.String(label, "labels-a", "labels-b", "in-a", "notin-a", "exists", "bogus") {
 	case "labels-a":
 		return zzSel{"labels-a"}
@@ -73,24 +90,34 @@ func zzPickSel(label string) zzSel {
 	return zzSel{"bogus"}
 }
 
-// ZZ_C18_mutex: after every setting of a namespace was reconciled against the same nodes, at
+// ZZ_C18_three: three settings (reduced selector alphabet in the quick tier), so that an
+// unusable or losing setting can sit between two others in the precedence order.
+func ZZ_C18_three() { zzC18(3, !nondet.Thorough()) }
+
+// ZZ_C18_mutex: two settings over the full alphabets.
+func ZZ_C18_mutex() { zzC18(2, false) }
+
+// zzC18: after every setting of a namespace was reconciled against the same nodes, at
 // most one valid setting matches any node; settings without reference or with an unusable
 // selector are in error; a well-formed setting overlapping no other one is valid.
-func ZZ_C18_mutex() {
-	nSettings, nNodes := 2, 2
-	if nondet.Thorough() {
-		nSettings = 3
-	}
-	// zero to two nodes
-	for v, k := 0, nondet.Int("nNodes", 0, 2); v <= 2; v++ {
-		if k == v {
-			nNodes = v
+func zzC18(nSettings int, small bool) {
+	nNodes := 2
+	// zero to two nodes (the three-settings quick harness: exactly two)
+	if !small {
+		for v, k := 0, nondet.Int("nNodes", 0, 2); v <= 2; v++ {
+			if k == v {
+				nNodes = v
+			}
 		}
 	}
 	c := fakeapi.New()
 	labels := make([]string, nNodes)
 	for i := 0; i < nNodes; i++ {
-		switch nondet.String("node"+strconv.Itoa(i)+".label", "", "a", "b") {
+		nodeLabels := []string{"", "a", "b"}
+		if small {
+			nodeLabels = []string{"a", "b"}
+		}
+		switch nondet.String("node"+strconv.Itoa(i)+".label", nodeLabels...) {
 		case "a":
 			labels[i] = "a"
 		case "b":
@@ -106,12 +133,16 @@ func ZZ_C18_mutex() {
 	hasRef := make([]bool, nSettings)
 	for j := 0; j < nSettings; j++ {
 		l := "s" + strconv.Itoa(j)
-		sels[j] = zzPickSel(l + ".selector")
+		sels[j] = zzPickSel(l+".selector", small)
 		s := &datadoghqv1alpha1.ExtendedDaemonsetSetting{
-			ObjectMeta: metav1.ObjectMeta{Name: l, Namespace: "ns", CreationTimestamp: metav1.NewTime(nondet.TimeSec(l+".created", 0, nSettings-1))},
+			ObjectMeta: metav1.ObjectMeta{Name: l, Namespace: "ns", CreationTimestamp: metav1.NewTime(nondet.TimeSec(l+".created", 0, zzCreatedMax(nSettings, small)))},
 			Spec:       datadoghqv1alpha1.ExtendedDaemonsetSettingSpec{NodeSelector: sels[j].selector()},
 		}
-		switch nondet.String(l+".reference", "nil", "empty", "foo") {
+		refs := []string{"nil", "empty", "foo"}
+		if small {
+			refs = []string{"nil", "foo"}
+		}
+		switch nondet.String(l+".reference", refs...) {
 		case "empty":
 			s.Spec.Reference = &autoscalingv1.CrossVersionObjectReference{Kind: "ExtendedDaemonset"}
 		case "foo":
@@ -128,9 +159,11 @@ func ZZ_C18_mutex() {
 	r := &Reconciler{client: c, scheme: c.Scheme(), log: logr.Logger{}, recorder: &fakeapi.Recorder{}}
 	// every order of reconciling them
 	first := 0
-	for v, f := 0, nondet.Int("order.first", 0, nSettings-1); v < nSettings; v++ {
-		if f == v {
-			first = v
+	if !small {
+		for v, f := 0, nondet.Int("order.first", 0, nSettings-1); v < nSettings; v++ {
+			if f == v {
+				first = v
+			}
 		}
 	}
 	for k := 0; k < nSettings; k++ {
@@ -206,7 +239,13 @@ func ZZ_C18_mutex() {
 	nondet.Observe("s0", string(status(0).Status))
 	nondet.Observe("s1", string(status(1).Status))
 	nondet.Reach("C18.conflict", status(0).Status == datadoghqv1alpha1.ExtendedDaemonsetSettingStatusError && hasRef[0] && sels[0].usable() && status(1).Status == datadoghqv1alpha1.ExtendedDaemonsetSettingStatusValid)
-	nondet.Reach("C18.no-nodes", nNodes == 0)
+	if !small {
+		nondet.Reach("C18.no-nodes", nNodes == 0)
+	}
 	nondet.Reach("C18.both-valid-disjoint", status(0).Status == datadoghqv1alpha1.ExtendedDaemonsetSettingStatusValid && status(1).Status == datadoghqv1alpha1.ExtendedDaemonsetSettingStatusValid)
+	if nSettings == 3 {
+		nondet.Reach("C18.unusable-in-the-middle", !sels[1].usable() && hasRef[0] && hasRef[2] && sels[0].usable() && sels[2].usable())
+		return
+	}
 	nondet.Reach("C18.tie-in-creation-time", hasRef[0] && hasRef[1] && sels[0].kind == "exists" && sels[1].kind == "exists" && nNodes >= 1 && labels[0] != "" && status(0).Status != status(1).Status)
 }
